@@ -240,6 +240,11 @@ def explore(run, tier):
         cases.append({'b': 0, 'hex': ['40' * n], 'api': 'funcdef'})
         cases.append({'b': 0, 'hex': ['40' * 800, '40' * n, '40' * 800], 'api': 'funcdef'})
         cases.append({'b': 0, 'lens': [n, 800, n], 'api': 'funcdef'})
+    # blocked files whose neighbouring blocks are EQUAL (constant or periodic record content over several blocks)
+    for n in (2100, 3040, 4052, 6000):
+        for h in ('40', '00', 'ff', '41424344', '0a'):
+            cases.append({'b': 1, 'hex': [(h * (n // (len(h) // 2)))[:2 * n]], 'api': 'class'})
+            cases.append({'b': 1, 'hex': ['01', (h * (n // (len(h) // 2)))[:2 * n], '02'], 'api': 'func'})
     # one-shot iterators as input; files of more than 64 KiB (65+ blocks), blocked and unblocked
     for b in (0, 1):
         for lens in ([5], [1, 2, 3], [1000, 1012, 7], [ml], [], [100], [1004], [1008, 1008, 40], [3, 4, 5, 6, 7, 8]):
